@@ -209,7 +209,11 @@ def processLine (st : St) (line : String) : IO St := do
           -- a table loaded by the real parser (a client of the tree operations): the parser is not
           -- replayed; the implementation's pool is judged as it stands after the load
           st := { st with stats := st.stats.bump s!"parse_{ret}" }
-          if ret = "panic" then
+          if ret = "hang" then
+            -- the real parser did not return (the pool is not dumped): reported, whatever caused it
+            IO.println s!"PROPFAIL case={st.caseId} clause=parser-hang feature=parser-history-hang op={(opS.take 200).toString} impl=hang"
+            return { st with inContract := false, stats := st.stats.bump "propfail" }
+          else if ret = "panic" then
             st := { st with inContract := false, stats := st.stats.bump "impl_panic" }
           else if st.inContract then
             match wfWhy after with
